@@ -12,7 +12,7 @@
    reverse index is exact, one log id, entries are entries of the universe under their own hash - are
    the same, and every theorem about the structure of a [pinv] log transfers (lift changes l_time only). *)
 From Coq Require Import List ZArith Bool Lia Permutation Sorted.
-From IpfsLog Require Import Model.System Proofs.OmapProofs Proofs.SortProofs Proofs.Inv Proofs.DiffProofs
+From IpfsLog Require Import Model.System Model.WfDef Proofs.OmapProofs Proofs.SortProofs Proofs.Inv Proofs.DiffProofs
      Proofs.JoinProofs Proofs.SysProofs Proofs.BoundedProofs Proofs.PInv Proofs.PJoin Proofs.PSys.
 Import ListNotations.
 Open Scope Z_scope.
@@ -105,26 +105,81 @@ Lemma find_heads_nil : find_heads [] = [].
 Proof. reflexivity. Qed.
 
 (* ---- opening a log over any selection of a [pinv] log's entries gives a [pinv] log (effective clock) ---- *)
-Theorem pinv_open U src keep key s deny :
-  univ_ok U -> pinv U src -> pinv U (lift (open_from src keep (l_id src) key s deny)).
+Lemma pick_inj m k1 k2 a b : well_keyed m -> In a (pick m k1) -> In b (pick m k2) -> e_hash a = e_hash b -> a = b.
 Proof.
-  intros UO I. set (tmp := pick (l_entries src) keep).
-  assert (TN : NoDup (map e_hash tmp)) by (apply pick_hashes_nodup; apply (pinv_well_keyed _ _ I)).
+  intros WK Ha Hb E. apply pick_In in Ha. apply pick_In in Hb. destruct Ha as [h1 [_ G1]], Hb as [h2 [_ G2]].
+  pose proof (WK _ _ (oget_In _ _ _ G1)) as K1. pose proof (WK _ _ (oget_In _ _ _ G2)) as K2.
+  assert (h1 = h2) by congruence. subst. congruence.
+Qed.
+
+(* replacing the head map of a [pinv] log by one with the same content *)
+Lemma pinv_heads_ext U l h' : pinv U l -> NoDup (okeys h') -> (forall k e, In (k, e) h' <-> In (k, e) (l_heads l)) ->
+  pinv U (mkLog (l_id l) (l_entries l) h' (l_next l) (l_time l) (l_cid l) (l_key l) (l_sort l) (l_deny l)).
+Proof.
+  intros I ND HE. split; cbn [l_entries l_heads l_next l_time l_id]; unfold ents; cbn [l_entries].
+  - exact (pi_nodup _ _ I).
+  - exact (pi_in_U _ _ I).
+  - exact (pi_logid _ _ I).
+  - exact ND.
+  - intros k e. rewrite HE. exact (pi_heads _ _ I k e).
+  - exact (pi_next _ _ I).
+  - exact (pi_time _ _ I).
+Qed.
+
+Lemma max_time_same_elements a b d : (forall e, In e a <-> In e b) -> max_time a d = max_time b d.
+Proof.
+  intros H. apply Z.le_antisymm; (apply max_time_bound; [apply max_time_ge|]); intros e He; apply max_time_In; now apply H.
+Qed.
+
+Theorem pinv_open U src keep hh key s deny :
+  univ_ok U -> pinv U src ->
+  heads_consistentb (pick (l_entries src) keep) (pick (l_entries src) hh) = true ->
+  pinv U (lift (open_from src keep hh (l_id src) key s deny)).
+Proof.
+  intros UO I HC. set (tmp := pick (l_entries src) keep) in *. set (hs := pick (l_entries src) hh) in *.
+  pose proof (pinv_well_keyed _ _ I) as WK.
+  assert (TN : NoDup (map e_hash tmp)) by (apply pick_hashes_nodup; exact WK).
   assert (TS : forall v, In v tmp -> In v (ents src)).
   { intros v Hv. apply pick_In in Hv. destruct Hv as [h [_ G]]. apply oget_In in G. apply In_oslice. eauto. }
   assert (TU : forall v, In v tmp -> In v U) by (intros v Hv; apply (pinv_entry _ _ _ I (TS v Hv))).
   assert (TL : forall v, In v tmp -> e_logid v = l_id src) by (intros v Hv; apply (pi_logid _ _ I), TS, Hv).
   pose proof (pinv_rebuilt U tmp (l_id src) 0 key key s deny UO TU TL TN) as R.
-  unfold open_from, new_log_from. fold tmp.
+  unfold open_from, new_log_from. fold tmp. fold hs.
   assert (HH : (if 0 <? olen (from_entries tmp) then find_heads (from_entries tmp) else []) = find_heads (from_entries tmp)).
   { destruct (0 <? olen (from_entries tmp)) eqn:E; [reflexivity|].
     apply Z.ltb_ge in E. unfold olen in E. destruct (from_entries tmp); [reflexivity|cbn [length] in E; lia]. }
-  cbn [max_time fold_left]. rewrite HH. unfold build_next_index. rewrite (oslice_from_entries_nodup tmp TN).
-  unfold lift, hmax, set_time. cbn [l_id l_entries l_heads l_next l_time l_cid l_key l_sort l_deny].
-  exact R.
+  unfold build_next_index. rewrite (oslice_from_entries_nodup tmp TN).
+  destruct hs as [|h0 hs'] eqn:Ehs.
+  - (* no heads given: NewLog finds them *)
+    cbn [max_time fold_left]. rewrite HH.
+    unfold lift, hmax, set_time. cbn [l_id l_entries l_heads l_next l_time l_cid l_key l_sort l_deny].
+    exact R.
+  - (* heads given: exactly the unreferenced entries of the selection *)
+    rewrite <- Ehs. assert (Hne : hs <> []) by (rewrite Ehs; discriminate).
+    assert (HSN : NoDup (map e_hash hs)) by (apply pick_hashes_nodup; exact WK).
+    assert (EQ : forall e, In e hs <-> In e (find_heads (from_entries tmp))).
+    { unfold heads_consistentb in HC. cbv beta iota zeta in HC. rewrite <- Ehs in HC.
+      apply andb_true_iff in HC. destruct HC as [C1 C2]. rewrite forallb_forall in C1, C2.
+      intros e. split.
+      - intros He. specialize (C1 e He). apply mem_In in C1. apply in_map_iff in C1. destruct C1 as [x [Hx Hin]].
+        assert (In x tmp).
+        { apply find_heads_In in Hin. destruct Hin as [Hin _]. now apply (oslice_from_entries_iff tmp x TN) in Hin. }
+        assert (x = e) by (eapply (pick_inj (l_entries src) keep hh); eauto). now subst.
+      - intros He. assert (Hm : In (e_hash e) (map e_hash (find_heads (from_entries tmp)))) by (apply in_map; exact He).
+        specialize (C2 _ Hm). apply mem_In in C2. apply in_map_iff in C2. destruct C2 as [x [Hx Hin]].
+        assert (In e tmp).
+        { apply find_heads_In in He. destruct He as [He _]. now apply (oslice_from_entries_iff tmp e TN) in He. }
+        assert (x = e) by (eapply (pick_inj (l_entries src) hh keep); eauto). now subst. }
+    assert (FN : NoDup (map e_hash (find_heads (from_entries tmp)))) by (apply find_heads_hashes_nodup, from_entries_hashes_nodup).
+    assert (HE : forall k e, In (k, e) (from_entries hs) <-> In (k, e) (from_entries (find_heads (from_entries tmp)))).
+    { intros k e. rewrite (from_entries_iff hs k e HSN), (from_entries_iff _ k e FN), EQ. tauto. }
+    pose proof (pinv_heads_ext U _ (from_entries hs) R (proj1 (from_entries_props hs)) HE) as R'.
+    cbn [l_id l_entries l_heads l_next l_time l_cid l_key l_sort l_deny] in R'.
+    eapply (pinv_any_clock U _ (Z.max 0 (max_time (oslice (from_entries (find_heads (from_entries tmp)))) 0)) UO).
+    unfold set_time. cbn [l_id l_entries l_heads l_next l_time l_cid l_key l_sort l_deny]. exact R'.
 Qed.
 
-Lemma open_from_set_time src t keep id key s deny : open_from (set_time src t) keep id key s deny = open_from src keep id key s deny.
+Lemma open_from_set_time src t keep hh id key s deny : open_from (set_time src t) keep hh id key s deny = open_from src keep hh id key s deny.
 Proof. reflexivity. Qed.
 
 (* ---- each operation on the effective clock ---- *)
@@ -221,7 +276,9 @@ Qed.
 (* ---- histories ---- *)
 Definition owf_step (s : sys) (o : op) : Prop :=
   match o with
-  | OOpen src _ id _ _ _ => forall l, nth_error (s_logs s) src = Some l -> id = l_id l   (* opened under the id its entries carry *)
+  | OOpen src keep hh id _ _ _ =>      (* opened under the id its entries carry; heads: none given, or the unreferenced entries *)
+      forall l, nth_error (s_logs s) src = Some l ->
+        id = l_id l /\ heads_consistentb (pick (l_entries l) keep) (pick (l_entries l) hh) = true
   | _ => pwf_step s o
   end.
 Fixpoint owf_from (s : sys) (ops : list op) : Prop :=
@@ -272,7 +329,7 @@ Qed.
 Theorem osinv_step s o : osinv s -> owf_step s o -> osinv (fst (step s o)).
 Proof.
   intros SI W. pose proof SI as [UO IL].
-  destruct o as [id key sf deny t0|r payload pc h|r src size|r key|r mh|r io|r payload pc h|r|osrc okeep oid okey osf odeny]; cbn [step].
+  destruct o as [id key sf deny t0|r payload pc h|r src size|r key|r mh|r io|r payload pc h|r|osrc okeep ohh oid okey osf odeny]; cbn [step].
   - (* ONew *)
     cbn [fst]. apply osinv_new_replica; [exact SI|]. apply pinv_lift, pinv_new.
   - (* OAppend *)
@@ -319,8 +376,8 @@ Proof.
   - (* OOpen *)
     destruct (nth_error (s_logs s) osrc) as [l|] eqn:L; [|exact SI]. cbn [fst].
     apply osinv_new_replica; [exact SI|].
-    rewrite (W l L). change (open_from l okeep (l_id l) okey osf odeny) with (open_from (lift l) okeep (l_id (lift l)) okey osf odeny).
-    apply pinv_open; [exact UO|]. exact (IL osrc l L).
+    destruct (W l L) as [Wid Whd]. rewrite Wid. change (open_from l okeep ohh (l_id l) okey osf odeny) with (open_from (lift l) okeep ohh (l_id (lift l)) okey osf odeny).
+    apply pinv_open; [exact UO|exact (IL osrc l L)|exact Whd].
 Qed.
 
 Theorem osinv_run_from ops : forall s, osinv s -> owf_from s ops -> osinv (run_from s ops).
@@ -350,7 +407,7 @@ Qed.
 Theorem otbound_step B s o : 0 <= B -> seed_of o <= B -> osinv s -> owf_step s o -> ptbound B s -> ptbound B (fst (step s o)).
 Proof.
   intros HB HS SI W [TU TL]. destruct SI as [UO IL].
-  destruct o as [id key sf deny t0|r payload pc h|r src size|r key|r mh|r io|r payload pc h|r|osrc okeep oid okey osf odeny]; cbn [step].
+  destruct o as [id key sf deny t0|r payload pc h|r src size|r key|r mh|r io|r payload pc h|r|osrc okeep ohh oid okey osf odeny]; cbn [step].
   - split; [exact TU|]. cbn [fst s_logs s_univ]. intros r l H.
     destruct (Nat.lt_ge_cases r (length (s_logs s))) as [Hl|Hl].
     + rewrite nth_error_app1 in H by assumption. eauto.
@@ -407,7 +464,10 @@ Proof.
     destruct (Nat.lt_ge_cases r (length (s_logs s))) as [Hl|Hl].
     + rewrite nth_error_app1 in H by assumption. eauto.
     + rewrite nth_error_app2 in H by assumption. destruct (r - length (s_logs s))%nat as [|n]; cbn [nth_error] in H.
-      * injection H as <-. unfold open_from, new_log_from. cbn [l_time max_time fold_left]. lia.
+      * injection H as <-. unfold open_from, new_log_from. cbn [l_time].
+        assert (max_time (pick (l_entries l) ohh) 0 <= B + Z.of_nat (length (s_univ s))); [|pose proof (max_time_ge (pick (l_entries l) ohh) 0); lia].
+        apply max_time_bound; [lia|]. intros e He. apply pick_In in He. destruct He as [h [_ G]]. apply oget_In in G.
+        apply TU. apply (pinv_entry _ (lift l) e (IL osrc l L)). apply In_oslice. eauto.
       * destruct n; discriminate.
 Qed.
 
@@ -533,7 +593,7 @@ From IpfsLog Require Import Proofs.WfBool.
 Lemma owf_stepb_owf s o : owf_stepb s o = true -> owf_step s o.
 Proof.
   destruct o; cbn [owf_stepb owf_step]; auto; try (intros H; apply pwf_stepb_pwf in H; exact H).
-  intros H l L. rewrite L in H. now apply N.eqb_eq.
+  intros H l L. rewrite L in H. apply andb_true_iff in H. destruct H as [H1 H2]. split; [now apply N.eqb_eq|exact H2].
 Qed.
 
 Theorem owfb_owf ops : owfb ops = true -> owf ops.
